@@ -424,6 +424,30 @@ def check(prop, tier):
         # ---- worker deaths
         for c in res["crashes"][:3]:
             if c["index"] < 0:
+                # The worker died before its first run, i.e. in the engine's warm-up (the same code path as a run: a fresh detector, plugin, registry built
+                # and destroyed). If a fresh process given the first run of the batch dies the same way every time, the library cannot get through the
+                # workload of a property whose statement excludes a crash: reported as a crash class of that property, with the run description as replay.
+                if any(v["class"].startswith("crash|") and v["class"].endswith("|startup") for v in violations):
+                    continue      # the same death, already reported
+                if prop in CRASH_CLAUSE:
+                    exe = engine_path(engine, variant)
+                    raw = os.path.join(outdir, "crash_startup_i0.json")
+                    rcs = []
+                    sh([exe, "dump", "--profile", profile, "--seed", str(seed), "--index", "0", "--file", raw], stdout=subprocess.PIPE, stderr=subprocess.STDOUT, text=True)
+                    for _ in range(2):
+                        try:
+                            pp = sh([exe, "replay", "--file", raw, "--prop", propArg], stdout=subprocess.PIPE, stderr=subprocess.PIPE, text=True, errors="replace", timeout=120)
+                            rcs.append(pp.returncode)
+                        except subprocess.TimeoutExpired:
+                            rcs.append("hang")
+                    if len(set(rcs)) == 1 and rcs[0] == c["rc"] and (rcs[0] == 77 or (isinstance(rcs[0], int) and rcs[0] < 0)) and os.path.exists(raw):
+                        cls = ("crash|sanitizer" if rcs[0] == 77 else "crash|signal%d" % (-rcs[0])) + "|startup"
+                        dst = os.path.join(replay_dir, "%s_%s_%s_%s_s%d_startup_crash.json" % (prop, engine, variant, profile, seed))
+                        d = json.load(open(raw)); d["property"] = prop; d["class"] = cls; d["oracle"] = "crash"; d["detail"] = cls + ": every worker dies while the engine builds and destroys its first detector/registry, before run 0"
+                        json.dump(d, open(dst, "w"))
+                        failed, classes, crash, out = fresh_replay(dst, prop)
+                        if crash == cls.replace("|startup", ""):
+                            violations.append({"class": cls, "replay": dst, "detail": d["detail"]}); continue
                 harness_problems.append("worker died outside any run (rc %s)" % c["rc"]); continue
             cls, mn = classify_crash(engine, variant, profile, seed, c["index"], outdir, "w%d" % c["worker"])
             if cls is None:
